@@ -105,6 +105,15 @@ def op_scopes(req):
     except SyntaxError:
         return {'status': 'domain', 'why': 'syntax'}
     r = scopecheck.analyse(src, req['opts'], minify, req.get('pl'), req.get('pg'))
+    if r.get('status') == 'ok':
+        # the resolver is also cross-checked against CPython's symtable on the OUTPUT program
+        try:
+            agree2, dis2 = scopes.symtable_check(r['out'])
+            rep['validated_scopes'] += agree2
+            if dis2:
+                rep['resolver_disagrees_with_symtable'] = 'on output: ' + repr(dis2[:3])
+        except SyntaxError:
+            pass
     out = dict((k, v) for k, v in r.items() if not k.startswith('_'))
     if r['status'] == 'ok' and req.get('interface'):
         bad = scopecheck.check_interface(r, req['opts'])
